@@ -48,7 +48,7 @@ def _rule_yprefix(t):
 def base_axioms():
     """Only non-quantified facts live here; the algebra of get/set/literals is applied by ground instantiation
     (`DynModel.ground_instances`): quantifier-free queries give decisive sat/unsat answers and usable counter-models."""
-    return [z3.Not(truthy_(NONE))]
+    return [z3.Not(truthy_(NONE)), z3.Not(truthy_(z3.Const("dyn.emptydict", Ref))), z3.Const("dyn.emptydict", Ref) != NONE]
 
 
 def dget(o, p):
@@ -133,7 +133,27 @@ def _rule_get(t):
     return []
 
 
-GROUND_RULES = {"stream.prefix": [_rule_yprefix], "dyn.str": [_rule_str], "dyn.int": [_rule_int], "dyn.bool": [_rule_bool], "dyn.set": [_rule_set], "dyn.get": [_rule_get]}
+setitem_ = fn("dyn.setitem", Ref, Ref, Ref, Ref)
+EMPTYDICT = z3.Const("dyn.emptydict", Ref)
+
+
+def _rule_setitem(t):
+    d, k, v = t.children()
+    return [t != NONE, truthy_(t), item_(t, k) == v]
+
+
+def _rule_item(t):
+    x, k2 = t.children()
+    if z3.is_app(x) and x.decl().name() == "dyn.setitem":
+        d, k, v = x.children()
+        return [z3.If(k == k2, t == v, t == item_(d, k2))]
+    if z3.is_app(x) and x.decl().kind() == z3.Z3_OP_ITE:
+        c, a, b = x.children()
+        return [z3.If(c, t == item_(a, k2), t == item_(b, k2))]
+    return []
+
+
+GROUND_RULES = {"dyn.setitem": [_rule_setitem], "dyn.item": [_rule_item], "stream.prefix": [_rule_yprefix], "dyn.str": [_rule_str], "dyn.int": [_rule_int], "dyn.bool": [_rule_bool], "dyn.set": [_rule_set], "dyn.get": [_rule_get]}
 
 
 class DynModel(Model):
@@ -459,6 +479,11 @@ class DynModel(Model):
 
     def make_list(self, ex, items, st):
         return tup(items)
+
+    def make_dict(self, ex, pairs, st):
+        if not pairs:
+            return V(EMPTYDICT, ANY)
+        return super().make_dict(ex, pairs, st)
 
     def isinstance_py(self, ex, v, name):
         if v.ty == ANY:
